@@ -4,11 +4,14 @@ use std::io::{BufRead, Write};
 
 mod ops_chacha;
 mod ops_null;
+mod ops_skein;
+mod ops_threefish;
 mod util;
 
 pub struct Ctx {
     pub profile_debug: bool,
     pub chacha: ops_chacha::St,
+    pub skein: ops_skein::St,
 }
 
 fn set_backend(name: &str) -> bool {
@@ -53,6 +56,8 @@ fn step(ctx: &mut Ctx, toks: &[&str]) -> String {
         }
         ["chacha", ..] | ["guts", ..] => ops_chacha::step(&mut ctx.chacha, toks),
         ["null", ..] => ops_null::step(toks),
+        ["tf", ..] | ["tfl", ..] => ops_threefish::step(toks),
+        ["skein", ..] => ops_skein::step(&mut ctx.skein, toks),
         _ => "bad-op".into(),
     }
 }
@@ -65,6 +70,7 @@ fn main() {
     let mut ctx = Ctx {
         profile_debug: cfg!(debug_assertions),
         chacha: Default::default(),
+        skein: Default::default(),
     };
     for line in stdin.lock().lines() {
         let line = line.unwrap();
